@@ -46,9 +46,13 @@ def step(sx, B):
     for i in range(3):
         # consequence of |v_i| <= 1 and step > 0, stated so that the quotient of the wrap can be enumerated linearly
         sx.lemma(sym_and(v[i] * s <= s, v[i] * s >= -s), "component of the step is bounded by the step length")
+    bundle = np.array([v], dtype=object)
     with patched(rw, random=_Random):
-        new, index = rw._take_step(np.array([v], dtype=object), s, coord, box)
+        new, index = rw._take_step(bundle, s, coord, box)
     sx.claim(index == 0, "index of the chosen vector is returned")
+    for i in range(3):
+        # the same bundle serves all later steps of the molecule: a vector that is drawn again must still have unit length
+        sx.claim(bundle[0][i] is v[i] or bundle[0][i] == v[i], "the bundle of unit vectors is left unchanged by a step")
     tot = 0
     wrapped = False
     for i in range(3):
